@@ -13,6 +13,7 @@ cp -a "$V/evidence/." "$SAVE/" 2>/dev/null
 trap 'git -C /repo checkout -- . ; git -C /repo clean -fdq; cp -a "$SAVE/." "$V/evidence/"; rm -rf "$SAVE"; "$V/tools/build_harness.sh" >/dev/null 2>&1; "$V/build/verifh" gen -repo /repo -out "$V/coq/Gen" >/dev/null 2>&1' EXIT
 for P in "$@"; do
   OUT=$("$V/tools/check" "$P" --tier "$TIER" 2>&1); RC=$?
+  echo "$OUT" > /tmp/seedtest_last.out 2>/dev/null
   echo "seed=$SEED property=$P tier=$TIER exit=$RC"
   echo "$OUT" | grep -E "^VIOLATION|^KNOWN" | head -5
   for f in $(echo "$OUT" | grep -oE "replay=[^ ]+" | head -1 | cut -d= -f2); do python3 - "$f" <<'PY'
